@@ -110,6 +110,8 @@ def gen_cases(chk, tier):
     for n in ((1, 2, 3, 1000) if tier == "quick" else (1, 2, 3, 1000, 10000, 100000)):
         for pair in ((0, 0), (0, 2), (1, 5)):
             cases.append(G.case(rng, n_grains=n, pair=pair))
+    # block-boundary grain counts (independent stream: the cases above are unchanged)
+    cases += G.block_cases(np.random.default_rng([chk.seed, 0xB10C]), tier)
     return cases
 
 
@@ -153,7 +155,7 @@ def search(chk, core, extra=()):
     rng = np.random.default_rng(chk.seed + 1)
     found = []
     seen = set()
-    pool = list(extra) + [c for c in gen_cases(chk, "quick") if c["ng"] <= 64]
+    pool = list(extra) + [c for c in gen_cases(chk, "quick") if c["ng"] <= 64] + search_block_pool(chk)
     for c in pool:
         fails = oracle(core, c)
         if fails:
@@ -165,6 +167,11 @@ def search(chk, core, extra=()):
             if len(found) >= 3:
                 break
     return found
+
+
+def search_block_pool(chk, cap=4100):
+    """block-boundary sizes in increasing order (the first failing one is the smallest tested)"""
+    return G.block_cases(np.random.default_rng([chk.seed, 0xB10C, 1]), "quick", cap=cap, both_regimes_upto=cap)
 
 
 def shrink(core, c):
@@ -190,7 +197,8 @@ def run(chk):
     chk.cov["rule"] = ("cases = structured degenerate stream (all valid phase/fabric pairs x both dislocation regimes x aligned / near-aligned "
                        "orientations x flow families x volumes with zeros / one dominant grain; all 24 axis-aligned orientations) + seeded random "
                        "(Haar orientations, 5 flow families, 4 volume families, p in [1,2], n in [2,5], lam in [0,10], M in [0,200], phi in (0,1], "
-                       "n_grains 1..64 and 1e3 [thorough: up to 1e5]); distinct = distinct (regime, phase, fabric, n, O, L, f) byte-wise; "
+                       "n_grains 1..64 and 1e3 [thorough: up to 1e5]) + block-boundary grain counts (2^k - 1, 2^k, 2^k + 1 for k <= 14 [thorough 16], "
+                       "multiples of 64/128/256/1000/1024; both regimes up to 2049 grains); distinct = distinct (regime, phase, fabric, n, O, L, f) byte-wise; "
                        "non-trivial = not all returned rates are zero")
     bad = []
     if br.drivers.get("core", 1) is None:
